@@ -330,6 +330,25 @@ def run(ctx):
             ctx.violation("file-named-dash-is-a-file", dict(op="hdwallet " + " ".join(rn["args"]), cwd=rn.get("cwd")), w, str(r)[:300])
     os.remove(os.path.join(dash_dir, "-"))
     os.rmdir(dash_dir)
+    # a file whose name is not UTF-8 (legal here) is read like any other: same output as the same bytes through standard input
+    tmpb = os.fsencode(tmp)
+    odd = [os.path.join(tmpb, b"caf\xe9.txt"), os.path.join(tmpb, b"\xff\xfe msg"), os.path.join(tmpb, b"ok-\xed\xa0\x80.bin")]
+    for pth in odd:
+        open(pth, "wb").write(msg)
+    oruns, owant = [], []
+    a0 = accounts[0]
+    for pth in odd:
+        for sub in (["hash", "data"], ["hash", "message"], ["hex", "encode"], ["sign", "--mnemonic", a0["phrase"], "message"]):
+            oruns.append(dict(args=sub + [pth]))
+            owant.append(dict(args=sub + ["-"], stdin=msg))
+    for rn, r, w in zip(oruns, ctx.cli(oruns), ctx.cli(owant)):
+        ctx.count("file-name-not-utf8")
+        ctx.distinct(("odd-name", tuple(rn["args"])))
+        if w.cls != "ok" or r.cls != "ok" or r.stdout != w.stdout:
+            ctx.violation("file-name-not-utf8-is-read", dict(op="hdwallet " + " ".join(x if isinstance(x, str) else repr(x) for x in rn["args"][:-1]), file_name_bytes=rn["args"][-1].hex()),
+                          w.stdout.decode("utf8", "replace").strip(), str(r)[:300])
+    for pth in odd:
+        os.remove(pth)
     # the two selectors cannot be combined (flag+flag, env+flag, flag+env)
     a = accounts[0]
     conf = [dict(args=["address", "--mnemonic", a["phrase"], "--account-index", "1", "--hd-path", "m/0"]),
@@ -343,7 +362,17 @@ def run(ctx):
             dict(args=["public-key", "--mnemonic", a["phrase"], "--hd-path", "m/0"], env=dict(ACCOUNT_INDEX="0")),
             dict(args=["address", "--mnemonic", a["phrase"], "--account-index", "0"], env=dict(HD_PATH="m/0")),
             dict(args=["sign", "--mnemonic", a["phrase"], "--account-index", "+0", "--hd-path", "m/1", "raw", "0x" + "11" * 32]),
-            dict(args=["new", "--vanity-prefix", "0x", "--vanity-account-index", "0", "--vanity-hd-path", "m/0"])]
+            dict(args=["new", "--vanity-prefix", "0x", "--vanity-account-index", "0", "--vanity-hd-path", "m/0"]),
+            # ... wherever on the command line they are written: one before the nested sub-command and one after it
+            dict(args=["sign", "--mnemonic", a["phrase"], "--hd-path", "m/0", "raw", "0x" + "11" * 32, "--account-index", "3"]),
+            dict(args=["sign", "--mnemonic", a["phrase"], "--account-index", "3", "raw", "0x" + "11" * 32, "--hd-path", "m/0"]),
+            dict(args=["sign", "--mnemonic", a["phrase"], "--hd-path", "m/0", "raw", "--account-index", "3", "0x" + "11" * 32]),
+            dict(args=["sign", "--mnemonic", a["phrase"], "--hd-path=m/0", "message", "--account-index=3", "-"], stdin=b"hello"),
+            dict(args=["sign", "--mnemonic", a["phrase"], "raw", "0x" + "11" * 32, "--account-index", "3", "--hd-path", "m/0"]),
+            dict(args=["sign", "--mnemonic", a["phrase"], "raw", "0x" + "11" * 32, "--account-index", "3"], env=dict(HD_PATH="m/0")),
+            dict(args=["sign", "--mnemonic", a["phrase"], "raw", "0x" + "11" * 32, "--hd-path", "m/0"], env=dict(ACCOUNT_INDEX="3")),
+            dict(args=["--account-index", "3", "address", "--mnemonic", a["phrase"], "--hd-path", "m/0"]),
+            dict(args=["--hd-path", "m/0", "address", "--mnemonic", a["phrase"], "--account-index", "3"])]
     for rn, r in zip(conf, ctx.cli(conf)):
         ctx.count("selector-conflict")
         ctx.distinct(("conflict", tuple(rn["args"]), json.dumps(rn.get("env"))))
